@@ -12,7 +12,8 @@ SPEC = dict(
         "C06, must supply), session_mutex (one call per height inside its session), requests_are_pending / pending_step / pending_stable "
         "(the persisted set never changes, a coordinate leaves 'remaining' only through a non-empty answer at its position, every request asks "
         "for exactly the persisted remaining list - across retries, concurrent calls, crash and restart), draw_ok (every byte stream of "
-        "crypto/rand yields exactly min(count, w*w) distinct in-square coordinates). The model follows the REPAIRED code (branches fix-c03-1, "
+        "crypto/rand yields exactly min(count, w*w) distinct in-square coordinates) and draw_reaches_every_cell (no cell of the square is "
+        "excluded by construction). The model follows the REPAIRED code (branches fix-c03-1, "
         "fix-c03-2); for the code before the repairs the two pending_stable_original_*_refuted witnesses are proved and replayed. The model is "
         "re-validated on every run against the real ShareAvailability driven through ~700 generated concurrent histories (scripted getter, "
         "scripted crypto/rand.Reader, crash/restart over a shared datastore) plus ~1000 draws. Partial: unpredictability/uniformity of "
